@@ -126,30 +126,39 @@ def printAnns (indent : Nat) (a : Anns) : String :=
 /-- `marshalActionName` / `marshalAttrName` -/
 def printName (s : String) : String := if isValidIdent s then s else quoteCedar s
 
+/-- the names a namespace declares as entity type, enum or common type (`scope.declares`) -/
+def declNames (d : Namespace) : List String :=
+  d.entities.map (·.1) ++ d.enums.map (·.1) ++ d.commonTypes.map (·.1)
+
+/-- `marshalBuiltin`: a built-in type is written with the reserved `__cedar` namespace when the current or the empty
+    namespace declares a type of that name (`sh` = the names declared there), since such a declaration is found first
+    when the bare name is resolved -/
+def builtinName (sh : List String) (n : String) : String := if sh.contains n then "__cedar::" ++ n else n
+
 mutual
 /-- `marshalType` -/
-def printTy (indent : Nat) : Ty → String
-  | .string => "String"
-  | .long => "Long"
-  | .bool => "Bool"
-  | .ext n => n
-  | .set e => "Set<" ++ printTy indent e ++ ">"
+def printTy (sh : List String) (indent : Nat) : Ty → String
+  | .string => builtinName sh "String"
+  | .long => builtinName sh "Long"
+  | .bool => builtinName sh "Bool"
+  | .ext n => builtinName sh n
+  | .set e => "Set<" ++ printTy sh indent e ++ ">"
   | .record as =>
     (match as with
      | .nil => "{}"
-     | _ => "{\n" ++ printAttrs (indent + 1) as ++ tabs indent ++ "}")
+     | _ => "{\n" ++ printAttrs sh (indent + 1) as ++ tabs indent ++ "}")
   | .entityRef n => n
   | .typeRef n => n
 /-- the attribute lines (the loop body of `marshalRecordType`, at the inner indentation) -/
-def printAttrs (indent : Nat) : Attrs → String
+def printAttrs (sh : List String) (indent : Nat) : Attrs → String
   | .nil => ""
   | .cons n o a t rest =>
-    printAnns indent a ++ tabs indent ++ printName n ++ (if o then "?" else "") ++ ": " ++ printTy indent t ++
-    (match rest with | .nil => "" | _ => ",") ++ "\n" ++ printAttrs indent rest
+    printAnns indent a ++ tabs indent ++ printName n ++ (if o then "?" else "") ++ ": " ++ printTy sh indent t ++
+    (match rest with | .nil => "" | _ => ",") ++ "\n" ++ printAttrs sh indent rest
 end
 
 /-- `marshalRecordType` -/
-def printRecord (indent : Nat) (as : Attrs) : String := printTy indent (.record as)
+def printRecord (sh : List String) (indent : Nat) (as : Attrs) : String := printTy sh indent (.record as)
 
 /-- `marshalEntityTypeRefs` -/
 def printTypeRefs (refs : List String) : String :=
@@ -167,34 +176,35 @@ def printParentRefs (refs : List (String × String)) : String :=
   | _ => "[" ++ ", ".intercalate (refs.map printParentRef) ++ "]"
 
 /-- `marshalAppliesTo` (nil and empty principal/resource lists are identified: both are omitted) -/
-def printAppliesTo (indent : Nat) (ap : AppliesTo) : String :=
+def printAppliesTo (sh : List String) (indent : Nat) (ap : AppliesTo) : String :=
   let parts : List String :=
     (if ap.principals.isEmpty then [] else [tabs (indent + 1) ++ "principal: " ++ printTypeRefs ap.principals]) ++
     (if ap.resources.isEmpty then [] else [tabs (indent + 1) ++ "resource: " ++ printTypeRefs ap.resources]) ++
-    (match ap.context with | some t => [tabs (indent + 1) ++ "context: " ++ printTy (indent + 1) t] | none => [])
+    (match ap.context with | some t => [tabs (indent + 1) ++ "context: " ++ printTy sh (indent + 1) t] | none => [])
   " appliesTo {\n" ++ ",\n".intercalate parts ++ (if parts.isEmpty then "" else "\n") ++ tabs indent ++ "}"
 
-/-- the declarations of `marshalDecls`, one string each, in Go's order: types, entities, enums, actions (each key-sorted) -/
-def printDecls (indent : Nat) (d : Namespace) : List String :=
+/-- the declarations of `marshalDecls`, one string each, in Go's order: types, entities, enums, actions (each key-sorted);
+    `sh` = the names declared by the empty namespace and by `d` (`m.bare`, `m.ns`) -/
+def printDecls (sh : List String) (indent : Nat) (d : Namespace) : List String :=
   (sortedKV d.commonTypes).map (fun c =>
-    printAnns indent c.2.anns ++ tabs indent ++ "type " ++ c.1 ++ " = " ++ printTy indent c.2.ty ++ ";\n") ++
+    printAnns indent c.2.anns ++ tabs indent ++ "type " ++ c.1 ++ " = " ++ printTy sh indent c.2.ty ++ ";\n") ++
   (sortedKV d.entities).map (fun e =>
     printAnns indent e.2.anns ++ tabs indent ++ "entity " ++ e.1 ++
     (if e.2.parents.isEmpty then "" else " in " ++ printTypeRefs e.2.parents) ++
-    (match e.2.shape with | some as => " " ++ printRecord indent as | none => "") ++
-    (match e.2.tags with | some t => " tags " ++ printTy indent t | none => "") ++ ";\n") ++
+    (match e.2.shape with | some as => " " ++ printRecord sh indent as | none => "") ++
+    (match e.2.tags with | some t => " tags " ++ printTy sh indent t | none => "") ++ ";\n") ++
   (sortedKV d.enums).map (fun e =>
     printAnns indent e.2.anns ++ tabs indent ++ "entity " ++ e.1 ++ " enum [" ++ ", ".intercalate (e.2.values.map quoteCedar) ++ "];\n") ++
   (sortedKV d.actions).map (fun a =>
     printAnns indent a.2.anns ++ tabs indent ++ "action " ++ printName a.1 ++
     (if a.2.parents.isEmpty then "" else " in " ++ printParentRefs a.2.parents) ++
-    (match a.2.appliesTo with | some ap => printAppliesTo indent ap | none => "") ++ ";\n")
+    (match a.2.appliesTo with | some ap => printAppliesTo sh indent ap | none => "") ++ ";\n")
 
 /-- `MarshalSchema`: declarations are separated by one empty line -/
 def printSchema (s : Schema) : String :=
-  let bare := printDecls 0 s.bare
+  let bare := printDecls (declNames s.bare) 0 s.bare
   let nss := (sortedKV s.namespaces).map fun nd =>
-    printAnns 0 nd.2.anns ++ "namespace " ++ nd.1 ++ " {\n" ++ "\n".intercalate (printDecls 1 nd.2) ++ "}\n"
+    printAnns 0 nd.2.anns ++ "namespace " ++ nd.1 ++ " {\n" ++ "\n".intercalate (printDecls (declNames nd.2 ++ declNames s.bare) 1 nd.2) ++ "}\n"
   "\n".intercalate (bare ++ nss)
 
 end CedarGo.Schema
